@@ -3,9 +3,11 @@ package c02
 import (
 	"context"
 	"fmt"
+	"strings"
 
 	"buf.build/go/bufplugin/check"
 	"buf.build/go/bufplugin/check/checkutil"
+	"buf.build/go/bufplugin/descriptor"
 	"github.com/bufbuild/buf/private/bufpkg/bufcheck"
 	"github.com/bufbuild/buf/private/bufpkg/bufconfig"
 	"github.com/bufbuild/bufverif/internal/bufx"
@@ -88,5 +90,67 @@ func lintWithPluginsScenario() Scenario {
 			return nil, fmt.Errorf("vacuous plugin scenario: %v", seen)
 		}
 		return annotationText(anns), nil
+	}}
+}
+
+// failingPluginSpec: a plugin whose only rule fails (an operational plugin failure, not an annotation).
+func failingPluginSpec() *check.Spec {
+	return &check.Spec{Rules: []*check.RuleSpec{{
+		ID: "VERIF_ALWAYS_FAILS", Default: true, Purpose: "Fails on every file (harness plugin).", Type: check.RuleTypeLint,
+		Handler: checkutil.NewFileRuleHandler(func(_ context.Context, _ check.ResponseWriter, _ check.Request, f descriptor.FileDescriptor) error {
+			// the same text for every file: which file the plugin library visits first is not buf's business
+			_ = f
+			return fmt.Errorf("verif plugin refuses to work")
+		}),
+	}}}
+}
+
+// lintWithFailingPluginScenario: built-in rules, one healthy plugin and one plugin that fails. The error text that
+// `buf lint` prints must not depend on which of the three check jobs ran or finished first, nor on the order in
+// which the plugins are listed... the listing order of plugins is an input that the error text may mention, so
+// only the job order (and the other perturbations) are varied here.
+func lintWithFailingPluginScenario() Scenario {
+	return Scenario{Name: "lint+healthy plugin+failing plugin (error text)", Variants: 1, Walks: false, Run: func(ctx context.Context, e *Env) ([]byte, error) {
+		img, err := buildImage(ctx, &Env{}, false)
+		if err != nil {
+			return nil, err
+		}
+		y, err := bufx.ReadBufYAML("version: v2\nlint:\n  use:\n    - STANDARD\n    - VERIF_FIELD_SEEN\n    - VERIF_ALWAYS_FAILS\n")
+		if err != nil {
+			return nil, err
+		}
+		client, err := bufcheck.NewClient(bufx.Logger, bufcheck.RunnerProviderFunc(func(pc bufconfig.PluginConfig) (pluginrpc.Runner, error) {
+			spec := pluginSpec(pc.Name())
+			if pc.Name() == "verif-plugin-fails" {
+				spec = failingPluginSpec()
+			}
+			server, err := check.NewServer(spec)
+			if err != nil {
+				return nil, err
+			}
+			return pluginrpc.NewServerRunner(server), nil
+		}))
+		if err != nil {
+			return nil, err
+		}
+		var pcs []bufconfig.PluginConfig
+		for _, n := range []string{"verif-plugin-fields", "verif-plugin-fails"} {
+			pc, err := bufconfig.NewLocalPluginConfig(n, nil, []string{n})
+			if err != nil {
+				return nil, err
+			}
+			pcs = append(pcs, pc)
+		}
+		lerr := client.Lint(ctx, y.ModuleConfigs()[0].LintConfig(), img, bufcheck.WithPluginConfigs(pcs...))
+		if lerr == nil {
+			return nil, fmt.Errorf("vacuous: lint with a failing plugin succeeded")
+		}
+		if _, ok := bufx.Annotations(lerr); ok {
+			return nil, fmt.Errorf("vacuous: the failing plugin produced annotations instead of an error")
+		}
+		if !strings.Contains(lerr.Error(), "verif-plugin-fails") {
+			return nil, fmt.Errorf("vacuous: error does not name the failing plugin: %v", lerr)
+		}
+		return []byte(lerr.Error()), nil
 	}}
 }
